@@ -1,4 +1,4 @@
-import KitModel.Runner
+import KitProofs.Lemmas.RunnerFacts
 /-!
 Helper lemmas for C12: the inductive invariant of the `RM` transition system
 (`concurrency.RunnerManager`) and frame facts used by the closer-manager invariants.
